@@ -13,14 +13,14 @@ Definition mk_ev (e : oev) : event :=
   end.
 
 Record step := mkStep {
-  st_changes : list (sym * sym * option lrow);     (* rows of the notification with the state they take *)
+  st_changes : list (sym * sym * bool * option lrow);     (* rows of the notification with the state they take *)
   st_ok : bool;                                    (* the cache accepted the notification *)
   st_events : list (list oev);                     (* what each handler saw for it, in delivery order *)
   st_cache : list (sym * list (sym * lrow)) }.     (* cache contents afterwards *)
 
 Definition case := list step.
 
-Definition mk_change (ch : sym * sym * option lrow) : rowchange := (ch.1.1, ch.1.2, mkrow <$> ch.2).
+Definition mk_change (ch : sym * sym * bool * option lrow) : rowchange := (ch.1.1.1, ch.1.1.2, ch.1.2, mkrow <$> ch.2).
 
 Definition perm_eqb (a b : list event) : bool :=
   Nat.eqb (length a) (length b) && forallb (fun e => bool_decide (e ∈ b)) a && forallb (fun e => bool_decide (e ∈ a)) b.
